@@ -259,6 +259,66 @@ pub fn coherence_part(opts: &Opts, rep: &mut Report) {
                 }
             }
         }
+        // substitution: a haystack character and its image are the same character to every site, so replacing one by the other
+        // (where both have the same character class, e.g. inverted exclamation mark / exclamation mark, e-acute / e) changes
+        // no result of any entry point - score and indices included. The haystacks contain an earlier duplicate of the first
+        // needle character so that the shrinking pass of the greedy matcher has work to do.
+        if moved {
+            for ci in 0..4usize {
+                let cfg = RCfg {
+                    ignore_case: ci & 1 != 0,
+                    normalize: ci & 2 != 0,
+                    bonus: BonusCfg::Default,
+                    prefer_prefix: false,
+                };
+                let img = ref_norm(c, &cfg);
+                if img == c || ref_norm(img, &cfg) != img {
+                    continue;
+                }
+                match (ref_class(c, &cfg), ref_class(img, &cfg)) {
+                    (Some(a), Some(b)) if a == b => (),
+                    _ => continue,
+                }
+                let f0 = ref_norm(fill[0], &cfg);
+                for (hay, needle) in [
+                    (vec![fill[0], ' ', fill[0], c, fill[1]], vec![f0, img]),
+                    (vec![fill[0], fill[1], fill[0], fill[2], c], vec![f0, img]),
+                    (vec![c, fill[1], c, fill[0]], vec![img, f0]),
+                    (vec![fill[0], c, fill[0], c, fill[1]], vec![f0, img, ref_norm(fill[1], &cfg)]),
+                ] {
+                    let replaced: Vec<char> = hay.iter().map(|&x| if x == c { img } else { x }).collect();
+                    let (h1, h2, n) = (Text::new(hay.clone()), Text::new(replaced), Text::new(needle.clone()));
+                    matcher.config = cfg.real();
+                    rep.count("c16.substitution-probes");
+                    for algo in ALGOS {
+                        let mut i1 = Vec::new();
+                        let mut i2 = Vec::new();
+                        let r = caught(|| {
+                            let a = call(&mut matcher, algo, h1.view(false), n.view(false), Some(&mut i1));
+                            let b = call(&mut matcher, algo, h2.view(false), n.view(false), Some(&mut i2));
+                            (a, b)
+                        });
+                        match r {
+                            Ok((a, b)) if a == b && i1 == i2 => (),
+                            Ok((a, b)) => {
+                                rep.violation(
+                                    "C16",
+                                    "coherence/result-changes-when-a-character-is-replaced-by-its-image",
+                                    format!("{}_indices", algo.name()),
+                                    jobj! {"haystack" => show_chars(&hay), "needle" => show_chars(&needle), "config" => format!("{cfg:?}"), "case_id" => format!("U+{u:04X}"),
+                                           "with_the_character" => format!("{a:?} {i1:?}"), "with_its_image" => format!("{b:?} {i2:?}")},
+                                );
+                                break;
+                            }
+                            Err(e) => {
+                                rep.violation("C16", "panic", format!("panic@{}", e.rsplit(" @ ").next().unwrap_or("")), jobj! {"message" => e, "case_id" => format!("U+{u:04X}")});
+                                break;
+                            }
+                        }
+                    }
+                }
+            }
+        }
         // the character immediately followed by its own image, where the image is itself moved again (U+212B, U+00E5): every
         // site has to normalize the second character on its own account, whatever it just did for the first
         if moved {
